@@ -696,8 +696,8 @@ enum EvKind {
     App(usize),
     Inj(usize),
     Resend { app: usize, left: u32 },
-    C2s { n: usize, bytes: Vec<u8> },
-    S2c { n: usize, copy: usize, bytes: Vec<u8>, fault: String },
+    C2s { ident: String, bytes: Vec<u8> },
+    S2c { ident: String, copy: usize, bytes: Vec<u8>, fault: String },
     Timer { gen: u64, n: usize },
     EndOfFaults,
 }
@@ -705,6 +705,11 @@ enum EvKind {
 #[derive(Clone, Debug, PartialEq, Eq, PartialOrd, Ord)]
 struct QEv {
     at: u64,
+    /// tie-break among events of the same instant: controller/application events first (in insertion order),
+    /// then network deliveries ordered by the stable name of the packet -- not by the order in which the
+    /// client happened to emit them, which no property fixes
+    class: u8,
+    name: String,
     seq: u64,
     kind: EvKind,
 }
@@ -737,6 +742,7 @@ struct World<'a> {
     n_c2s: usize,
     n_s2c: usize,
     n_srv: usize,
+    srv_arrivals: std::collections::BTreeMap<String, usize>,
     n_retry: usize,
     n_send: usize,
     probe_stage: u8,
@@ -749,7 +755,7 @@ struct World<'a> {
     /// every packet ever sent towards the client (post-fault bytes), for replay injections
     sent_s2c: Vec<Vec<u8>>,
     /// every packet the client emitted (for reflection injections)
-    sent_c2s: Vec<Vec<u8>>,
+    sent_c2s: std::collections::BTreeMap<(usize, String), Vec<u8>>,
     swarm_off: [bool; 6],
     perfect: bool,
 }
@@ -864,7 +870,12 @@ impl<'a> World<'a> {
 
     fn push(&mut self, at: u64, kind: EvKind) {
         self.seq += 1;
-        self.heap.push(Reverse(QEv { at, seq: self.seq, kind }));
+        let (class, name) = match &kind {
+            EvKind::C2s { ident, .. } => (1u8, ident.clone()),
+            EvKind::S2c { ident, copy, .. } => (2u8, format!("{}.c{}", ident, copy)),
+            _ => (0u8, String::new()),
+        };
+        self.heap.push(Reverse(QEv { at, class, name, seq: self.seq, kind }));
     }
 
     fn faults_on(&self) -> bool {
@@ -1120,10 +1131,25 @@ impl<'a> World<'a> {
 
     // ----- network ---------------------------------------------------------------------------
 
-    fn net_c2s(&mut self, bytes: Vec<u8>) {
-        self.sent_c2s.push(bytes.clone());
+    /// Content-stable name of a packet the client emitted: `t<k>.<j>` = j-th transmission of transaction k
+    /// (creation order), `i<n>` = n-th indication. Decisions are keyed by it, so that a plan means the same
+    /// thing even if the client emits the packets of one call in another order.
+    fn c2s_ident(&mut self, bytes: &[u8]) -> String {
+        if bytes.len() >= 20 {
+            let gen = self.gen;
+            if let Some(tx) = self.ledger.txs.iter().rev().find(|t| t.id[..] == bytes[8..20] && t.gen == gen) {
+                return format!("t{}.{}", tx.k, tx.transmissions.len());
+            }
+        }
         let n = self.n_c2s;
         self.n_c2s += 1;
+        format!("i{}", n)
+    }
+
+    fn net_c2s(&mut self, bytes: Vec<u8>) {
+        let n = self.c2s_ident(&bytes);
+        // keyed by (step, stable name): independent of the order in which one call emitted its packets
+        self.sent_c2s.insert((self.ledger.steps.len(), n.clone()), bytes.clone());
         let reliable = self.cfg.is_reliable();
         let mut delay = self.cfg.lat_ns;
         let mut drop = false;
@@ -1171,7 +1197,7 @@ impl<'a> World<'a> {
             self.c2s_last_at = at;
         }
         for c in 0..=dup {
-            self.push(at + c * 1000, EvKind::C2s { n, bytes: bytes.clone() });
+            self.push(at + c * 1000, EvKind::C2s { ident: n.clone(), bytes: bytes.clone() });
         }
     }
 
@@ -1190,9 +1216,7 @@ impl<'a> World<'a> {
         }
     }
 
-    fn net_s2c(&mut self, mut bytes: Vec<u8>, base_delay: u64) {
-        let n = self.n_s2c;
-        self.n_s2c += 1;
+    fn net_s2c(&mut self, mut bytes: Vec<u8>, base_delay: u64, n: String) {
         let reliable = self.cfg.is_reliable();
         let mut delay = self.cfg.lat_ns + base_delay;
         let mut drop = false;
@@ -1284,8 +1308,8 @@ impl<'a> World<'a> {
                 at = at.max(self.s2c_last_at);
                 self.s2c_last_at = at;
             }
-            if !self.opts.suppress.contains(&Origin::S2c(n, c)) {
-                self.push(at, EvKind::S2c { n, copy: c, bytes: bytes.clone(), fault: fault.clone() });
+            if !self.opts.suppress.contains(&Origin::S2c(n.clone(), c)) {
+                self.push(at, EvKind::S2c { ident: n.clone(), copy: c, bytes: bytes.clone(), fault: fault.clone() });
             }
             at += gap;
         }
@@ -1302,9 +1326,14 @@ impl<'a> World<'a> {
         }
     }
 
-    fn server_rx(&mut self, bytes: Vec<u8>) {
-        let n = self.n_srv;
-        self.n_srv += 1;
+    fn server_rx(&mut self, bytes: Vec<u8>, ident: String) {
+        // a-th arrival of this very packet (duplicates in the network)
+        let a = {
+            let e = self.srv_arrivals.entry(ident.clone()).or_insert(0);
+            *e += 1;
+            *e - 1
+        };
+        let n = format!("{}.a{}", ident, a);
         let mut spec: Kv = vec![];
         if self.faults_on() {
             let p = self.profile.clone();
@@ -1416,8 +1445,8 @@ impl<'a> World<'a> {
             }
         }
         let replies = self.server.on_datagram(&bytes, &spec);
-        for r in replies {
-            self.net_s2c(r.bytes, r.think_ns);
+        for (ri, r) in replies.into_iter().enumerate() {
+            self.net_s2c(r.bytes, r.think_ns, format!("{}.r{}", n, ri));
         }
     }
 
@@ -1544,7 +1573,7 @@ impl<'a> World<'a> {
                 // that carries the id of one of its own, possibly still outstanding, requests
                 if !self.sent_c2s.is_empty() {
                     let i = self.sent_c2s.len() - 1 - (kv_u64(kv, "back", 0) as usize).min(self.sent_c2s.len() - 1);
-                    let b = self.sent_c2s[i].clone();
+                    let b = self.sent_c2s.values().nth(i).cloned().unwrap_or_default();
                     self.ledger.stats.fault("inj_reflected_own_packet");
                     self.do_recv(b, origin, "inj:reflect".into());
                 }
@@ -1857,9 +1886,9 @@ impl<'a> World<'a> {
                         }
                     }
                 }
-                EvKind::C2s { bytes, .. } => self.server_rx(bytes),
-                EvKind::S2c { n, copy, mut bytes, mut fault } => {
-                    let origin = Origin::S2c(n, copy);
+                EvKind::C2s { bytes, ident } => self.server_rx(bytes, ident),
+                EvKind::S2c { ident, copy, mut bytes, mut fault } => {
+                    let origin = Origin::S2c(ident, copy);
                     if let Some((o, spec)) = self.opts.override_delivery.clone() {
                         if o == origin {
                             let key = self.session_key();
@@ -2028,7 +2057,7 @@ pub fn run(src: &mut Source, profile: &Profile, opts: &RunOpts) -> RunResult {
     let mut opts = opts.clone();
     if let Some(v) = src.decide("override", |_| None) {
         let kv = parse_kv(&v);
-        let n = kv_u64(&kv, "n", 0) as usize;
+        let n = kv_str(&kv, "n", "");
         let c = kv_u64(&kv, "c", 0) as usize;
         opts.override_delivery = Some((Origin::S2c(n, c), v.clone()));
     }
@@ -2077,6 +2106,7 @@ pub fn run(src: &mut Source, profile: &Profile, opts: &RunOpts) -> RunResult {
         n_c2s: 0,
         n_s2c: 0,
         n_srv: 0,
+        srv_arrivals: Default::default(),
         n_retry: 0,
         n_send: 0,
         probe_stage: 0,
@@ -2087,7 +2117,7 @@ pub fn run(src: &mut Source, profile: &Profile, opts: &RunOpts) -> RunResult {
         ledger,
         apps: vec![],
         sent_s2c: vec![],
-        sent_c2s: vec![],
+        sent_c2s: Default::default(),
         swarm_off,
         perfect,
     };
